@@ -444,7 +444,7 @@ type numTxt struct {
 	v   float64
 }
 
-func lit(s string) numTxt {
+func c19Lit(s string) numTxt {
 	v, err := strconv.ParseFloat(s, 64)
 	if err != nil {
 		panic(s)
@@ -452,13 +452,13 @@ func lit(s string) numTxt {
 	return numTxt{s, v}
 }
 
-var c19Nice = []numTxt{lit("0"), lit("1"), lit("2.5"), lit("10"), lit("33.3"), lit("50"), lit("75.25"), lit("99"), lit("100"), lit("7"), lit("0.1"), lit("42")}
+var c19Nice = []numTxt{c19Lit("0"), c19Lit("1"), c19Lit("2.5"), c19Lit("10"), c19Lit("33.3"), c19Lit("50"), c19Lit("75.25"), c19Lit("99"), c19Lit("100"), c19Lit("7"), c19Lit("0.1"), c19Lit("42")}
 var c19Degenerate = []numTxt{
-	lit("0"), {"(0*(0-1))", math.Copysign(0, -1)}, {"(0-7)", -7}, {"(0-33.3)", -33.3}, {"(0/0)", math.NaN()}, {"(1/0)", math.Inf(1)}, {"(0-1/0)", math.Inf(-1)},
-	lit("1000000000000000000000000000000"), lit("0.000000000000000000000000000001"), lit("123456789.125"), lit("150"),
+	c19Lit("0"), {"(0*(0-1))", math.Copysign(0, -1)}, {"(0-7)", -7}, {"(0-33.3)", -33.3}, {"(0/0)", math.NaN()}, {"(1/0)", math.Inf(1)}, {"(0-1/0)", math.Inf(-1)},
+	c19Lit("1000000000000000000000000000000"), c19Lit("0.000000000000000000000000000001"), c19Lit("123456789.125"), c19Lit("150"),
 }
 
-func genNum(rng *rand.Rand) numTxt {
+func c19GenNum(rng *rand.Rand) numTxt {
 	if rng.Intn(5) == 0 {
 		return c19Degenerate[rng.Intn(len(c19Degenerate))]
 	}
@@ -478,8 +478,8 @@ var c19Caps = []string{"round", "butt", "square", "", "<x>"}
 var c19Families = []string{"Tahoma, sans-serif", "\"Fira Code\", monospace", "serif", "", "<f&>"}
 var c19Baselines = []string{"top", "middle", "bottom", "alphabetic"}
 var c19Aligns = []string{"left", "center", "right"}
-var c19GridUnits = []numTxt{lit("10"), lit("20"), lit("25"), lit("7.5"), lit("50"), lit("100"), lit("1000"), lit("2"), {"(0/0)", math.NaN()}, {"(1/0)", math.Inf(1)}, lit("1000000000000000000000000000000")}
-var c19HangUnits = []numTxt{lit("0"), {"(0*(0-1))", math.Copysign(0, -1)}, {"(0-1)", -1}, {"(0-10)", -10}, {"(0-1/0)", math.Inf(-1)}}
+var c19GridUnits = []numTxt{c19Lit("10"), c19Lit("20"), c19Lit("25"), c19Lit("7.5"), c19Lit("50"), c19Lit("100"), c19Lit("1000"), c19Lit("2"), {"(0/0)", math.NaN()}, {"(1/0)", math.Inf(1)}, c19Lit("1000000000000000000000000000000")}
+var c19HangUnits = []numTxt{c19Lit("0"), {"(0*(0-1))", math.Copysign(0, -1)}, {"(0-1)", -1}, {"(0-10)", -10}, {"(0-1/0)", math.Inf(-1)}}
 
 // a generated command: the S-expression and its evy source line
 type gcmd struct {
@@ -508,17 +508,17 @@ func evyStr(s string) string {
 	return b.String()
 }
 
-func pick(rng *rand.Rand, l []string) string { return l[rng.Intn(len(l))] }
+func c19Pick(rng *rand.Rand, l []string) string { return l[rng.Intn(len(l))] }
 
 // genCmd: api = true allows values the evaluator's wrappers would reject
 // (arbitrary baseline/align strings, non-positive font size) since the platform API accepts them.
 func genCmd(rng *rand.Rand, api bool, allowHang bool) gcmd {
 	two := func(name string) gcmd {
-		a, b := genNum(rng), genNum(rng)
+		a, b := c19GenNum(rng), c19GenNum(rng)
 		return gcmd{Lst(Sym(name), Float(a.v), Float(b.v)), name + " " + a.src + " " + b.src}
 	}
 	str := func(name string, pool []string) gcmd {
-		s := pick(rng, pool)
+		s := c19Pick(rng, pool)
 		src := name
 		if name == "color" && rng.Intn(3) == 0 {
 			src = "colour"
@@ -544,20 +544,20 @@ func genCmd(rng *rand.Rand, api bool, allowHang bool) gcmd {
 		n := rng.Intn(5)
 		pts, src := []SX{}, "poly"
 		for i := 0; i < n; i++ {
-			a, b := genNum(rng), genNum(rng)
+			a, b := c19GenNum(rng), c19GenNum(rng)
 			pts = append(pts, Lst(Float(a.v), Float(b.v)))
 			src += " [" + a.src + " " + b.src + "]"
 		}
 		return gcmd{Lst(Sym("poly"), LstOf(pts)), src}
 	case k < 54:
-		x, y, rx := genNum(rng), genNum(rng), genPos(rng)
-		ry, rot := rx, lit("0")
+		x, y, rx := c19GenNum(rng), c19GenNum(rng), genPos(rng)
+		ry, rot := rx, c19Lit("0")
 		src := "ellipse " + x.src + " " + y.src + " " + rx.src
 		if n := rng.Intn(3); n >= 1 {
 			ry = genPos(rng)
 			src += " " + ry.src
 			if n == 2 {
-				rot = []numTxt{lit("0"), lit("30"), lit("45.5"), lit("360"), {"(0-90)", -90}, {"(0/0)", math.NaN()}, {"(0*(0-1))", math.Copysign(0, -1)}}[rng.Intn(7)]
+				rot = []numTxt{c19Lit("0"), c19Lit("30"), c19Lit("45.5"), c19Lit("360"), {"(0-90)", -90}, {"(0/0)", math.NaN()}, {"(0*(0-1))", math.Copysign(0, -1)}}[rng.Intn(7)]
 				src += " " + rot.src
 			}
 		}
@@ -572,12 +572,12 @@ func genCmd(rng *rand.Rand, api bool, allowHang bool) gcmd {
 		if allowHang {
 			u = c19HangUnits[rng.Intn(len(c19HangUnits))]
 		}
-		c := pick(rng, c19Colors)
+		c := c19Pick(rng, c19Colors)
 		return gcmd{Lst(Sym("gridn"), Float(u.v), Str(c)), "gridn " + u.src + " " + evyStr(c)}
 	case k < 72:
 		w := genPos(rng)
 		if rng.Intn(3) == 0 {
-			w = lit("0.1") // scale(0.1) == 1 == the default stroke width
+			w = c19Lit("0.1") // scale(0.1) == 1 == the default stroke width
 		}
 		return gcmd{Lst(Sym("width"), Float(w.v)), "width " + w.src}
 	case k < 79:
@@ -590,7 +590,7 @@ func genCmd(rng *rand.Rand, api bool, allowHang bool) gcmd {
 		n := rng.Intn(4)
 		fs, src := []SX{}, "dash"
 		for i := 0; i < n; i++ {
-			a := genNum(rng)
+			a := c19GenNum(rng)
 			fs = append(fs, Float(a.v))
 			src += " " + a.src
 		}
@@ -610,37 +610,37 @@ func genCmd(rng *rand.Rand, api bool, allowHang bool) gcmd {
 			src = append(src, key+":"+n.src)
 		}
 		if rng.Intn(2) == 0 {
-			addS("family", pick(rng, c19Families))
+			addS("family", c19Pick(rng, c19Families))
 		}
 		if rng.Intn(2) == 0 {
 			if api && rng.Intn(4) == 0 {
-				addN("size", genNum(rng))
+				addN("size", c19GenNum(rng))
 			} else {
-				addN("size", []numTxt{lit("6"), lit("4"), lit("0.5"), lit("12")}[rng.Intn(4)])
+				addN("size", []numTxt{c19Lit("6"), c19Lit("4"), c19Lit("0.5"), c19Lit("12")}[rng.Intn(4)])
 			}
 		}
 		if rng.Intn(3) == 0 {
-			addN("weight", []numTxt{lit("400"), lit("700"), lit("100"), lit("0.5")}[rng.Intn(4)])
+			addN("weight", []numTxt{c19Lit("400"), c19Lit("700"), c19Lit("100"), c19Lit("0.5")}[rng.Intn(4)])
 		}
 		if rng.Intn(3) == 0 {
-			addS("style", pick(rng, []string{"italic", "normal", "oblique 35deg", ""}))
+			addS("style", c19Pick(rng, []string{"italic", "normal", "oblique 35deg", ""}))
 		}
 		if rng.Intn(2) == 0 {
 			if api && rng.Intn(5) == 0 {
-				addS("baseline", pick(rng, []string{"hanging", "", "<b>"}))
+				addS("baseline", c19Pick(rng, []string{"hanging", "", "<b>"}))
 			} else {
-				addS("baseline", pick(rng, c19Baselines))
+				addS("baseline", c19Pick(rng, c19Baselines))
 			}
 		}
 		if rng.Intn(2) == 0 {
 			if api && rng.Intn(5) == 0 {
-				addS("align", pick(rng, []string{"start", "", "justify"}))
+				addS("align", c19Pick(rng, []string{"start", "", "justify"}))
 			} else {
-				addS("align", pick(rng, c19Aligns))
+				addS("align", c19Pick(rng, c19Aligns))
 			}
 		}
 		if rng.Intn(3) == 0 {
-			addN("letterspacing", []numTxt{lit("0"), lit("1"), {"(0-0.1)", -0.1}, {"(0*(0-1))", math.Copysign(0, -1)}, {"(0/0)", math.NaN()}}[rng.Intn(5)])
+			addN("letterspacing", []numTxt{c19Lit("0"), c19Lit("1"), {"(0-0.1)", -0.1}, {"(0*(0-1))", math.Copysign(0, -1)}, {"(0/0)", math.NaN()}}[rng.Intn(5)])
 		}
 		hasS, hasN := false, false
 		for _, x := range kv {
@@ -654,7 +654,7 @@ func genCmd(rng *rand.Rand, api bool, allowHang bool) gcmd {
 			addS("style", "normal")
 		}
 		if !hasN {
-			addN("weight", lit("700"))
+			addN("weight", c19Lit("700"))
 		}
 		return gcmd{Lst(Sym("font"), LstOf(kv)), "font {" + strings.Join(src, " ") + "}"}
 	}
@@ -702,7 +702,7 @@ var c19ViewBox string
 
 func c19ExpectedViewBox() string {
 	if c19ViewBox == "" {
-		c, err := readSvgConsts(filepath.Join(evyRepoDir(), "pkg", "cli", "svg", "runtime.go"))
+		c, err := readSvgConsts(filepath.Join(c19EvyRepoDir(), "pkg", "cli", "svg", "runtime.go"))
 		if err == nil {
 			c19ViewBox = fmt.Sprintf("0 0 %d %d", c.ints["evyWidth"]*c.ints["scaleFactor"], c.ints["evyHeight"]*c.ints["scaleFactor"])
 		}
@@ -893,7 +893,7 @@ func evyBinary() (string, error) {
 		}
 		evyBinPath = filepath.Join(dir, "evy")
 		cmd := exec.Command("go", "build", "-o", evyBinPath, ".")
-		cmd.Dir = evyRepoDir()
+		cmd.Dir = c19EvyRepoDir()
 		cmd.Env = append(os.Environ(), "GOFLAGS=-mod=mod", "GOPROXY=off", "GOSUMDB=off", "GOTOOLCHAIN=local", "CGO_ENABLED=0")
 		if out, err := cmd.CombinedOutput(); err != nil {
 			evyBinErr = fmt.Errorf("go build evy: %v: %s", err, out)
@@ -902,7 +902,7 @@ func evyBinary() (string, error) {
 	return evyBinPath, evyBinErr
 }
 
-type binResult struct {
+type c19BinResult struct {
 	doc      []byte
 	exit     int
 	timedOut bool
@@ -910,20 +910,20 @@ type binResult struct {
 }
 
 // runBinary runs `evy run --svg-out out.svg prog.evy` under timeout and ulimit -v.
-func runBinary(prog string, timeoutS int) (binResult, error) {
+func runBinary(prog string, timeoutS int) (c19BinResult, error) {
 	bin, err := evyBinary()
 	if err != nil {
-		return binResult{}, err
+		return c19BinResult{}, err
 	}
 	dir, err := os.MkdirTemp("", "c19-run-")
 	if err != nil {
-		return binResult{}, err
+		return c19BinResult{}, err
 	}
 	defer os.RemoveAll(dir)
 	src := filepath.Join(dir, "prog.evy")
 	out := filepath.Join(dir, "out.svg")
 	if err := os.WriteFile(src, []byte(prog), 0o644); err != nil {
-		return binResult{}, err
+		return c19BinResult{}, err
 	}
 	sh := fmt.Sprintf("ulimit -v 3000000; exec timeout -s KILL %d %q run --skip-sleep --svg-out %q %q", timeoutS, bin, out, src)
 	cmd := exec.Command("bash", "-c", sh)
@@ -931,7 +931,7 @@ func runBinary(prog string, timeoutS int) (binResult, error) {
 	cmd.Stderr = &stderr
 	cmd.Stdout = io.Discard
 	runErr := cmd.Run()
-	res := binResult{stderr: stderr.String()}
+	res := c19BinResult{stderr: stderr.String()}
 	if ee, ok := runErr.(*exec.ExitError); ok {
 		res.exit = ee.ExitCode()
 		if res.exit == -1 || res.exit == 137 || res.exit == 124 {
@@ -1006,7 +1006,7 @@ func c19CaseSX(cmds []SX, in c19Input, model *Model, r *Result) {
 				r.Violate(Violation{Kind: "property", Key: "gridn-nonpositive-unit-hangs",
 					Detail: fmt.Sprintf("evy run --svg-out did not terminate normally (exit %d, killed/timeout=%v, %d bytes of SVG): gridn with unit <= 0 never advances its loop variable and allocates without bound",
 						res.exit, res.timedOut, len(res.doc)),
-					Input: in, Impl: map[string]any{"stderr_tail": tail(res.stderr, 300)}})
+					Input: in, Impl: map[string]any{"stderr_tail": c19Tail(res.stderr, 300)}})
 			} else {
 				r.Violate(Violation{Kind: "correspondence", Key: "model-hang-class", Detail: "model says the history hangs, the binary terminated", Input: in})
 			}
@@ -1017,7 +1017,7 @@ func c19CaseSX(cmds []SX, in c19Input, model *Model, r *Result) {
 			return
 		}
 		if res.exit != 0 {
-			r.Violate(Violation{Kind: "correspondence", Key: "evy-run-error", Detail: fmt.Sprintf("exit %d: %s", res.exit, tail(res.stderr, 300)), Input: in})
+			r.Violate(Violation{Kind: "correspondence", Key: "evy-run-error", Detail: fmt.Sprintf("exit %d: %s", res.exit, c19Tail(res.stderr, 300)), Input: in})
 			return
 		}
 		c19CheckDoc(res.doc, cmds, m, in, r)
@@ -1027,7 +1027,7 @@ func c19CaseSX(cmds []SX, in c19Input, model *Model, r *Result) {
 	}
 }
 
-func tail(s string, n int) string {
+func c19Tail(s string, n int) string {
 	if len(s) > n {
 		return s[len(s)-n:]
 	}
